@@ -440,9 +440,9 @@ func c01Histories(out *vu.Out, rng *vu.Rng, n int, focusGrants bool) {
 			}
 			hops := append([]string(nil), humanOps...)
 			cflags := append([]string(nil), flags...)
-			if !final && c01MixedPaths(cw.k8s) {
-				// class of finding D33, decided on the objects actually in the cluster (the abstract state of a checkpoint is
-				// only an approximation): some HTTPRoute and some GRPCRoute share a path
+			if c01MixedPaths(cw.k8s) {
+				// class of finding D33, decided on the objects actually in the cluster (the abstract state does not hold the
+				// scenario objects, and at a checkpoint it is only an approximation): some HTTPRoute and some GRPCRoute share a path
 				cflags = append(cflags, "http-and-grpc-route-share-a-path")
 			}
 			term := vu.App("Case", abs.Coq(), c04Texts(longFiles), longMatches, c04Texts(freshFiles), freshMatches,
